@@ -33,15 +33,32 @@ pub fn count() -> u64 {
 /// life-cycles on foreign objects before another `every`-th.
 pub fn maybe(k: usize, every: usize) -> bool {
     if every > 0 && k % every == every / 2 {
+        FLAVOUR.with(|f| f.set(1));
         failing_calls();
         true
     } else if every > 0 && k % every == 0 {
+        FLAVOUR.with(|f| f.set(2));
         foreign_calls();
         true
     } else {
+        FLAVOUR.with(|f| f.set(0));
         mark_clean();
         false
     }
+}
+
+/// the flavour `maybe()` chose for the case in hand, once more (0 = none): for engines that make
+/// many calls per case, any of which may clean up what the calls on unrelated objects left
+pub fn again() {
+    match FLAVOUR.with(std::cell::Cell::get) {
+        1 => failing_calls(),
+        2 => foreign_calls(),
+        _ => {}
+    }
+}
+
+thread_local! {
+    static FLAVOUR: std::cell::Cell<u8> = const { std::cell::Cell::new(0) };
 }
 
 thread_local! {
@@ -159,7 +176,7 @@ fn failing_calls_n<const N: usize>() {
         let _ = b.merge(&a, 0, 10);
         let _ = b.merge(&a, 7, 13);
     });
-    // merge: stopped half-way by a limit panic (the left vertex is full); right ids 0,1,2, left ids 200+
+    // merge: stopped half-way by a limit panic (the left vertex is full); right ids 10,11,12, left ids 200+
     let _ = guarded(|| {
         let mut l: Sodg<N> = Sodg::empty(210);
         for v in 200..204 {
@@ -168,14 +185,15 @@ fn failing_calls_n<const N: usize>() {
         for i in 0..N {
             l.bind(200, 201 + i % 3, Label::Alpha(50 + i));
         }
-        let mut r: Sodg<N> = Sodg::empty(4);
-        for v in 0..3 {
+        // (right ids 10, 11, 12: whatever this leaves must not make the next merge return at once)
+        let mut r: Sodg<N> = Sodg::empty(14);
+        for v in 10..13 {
             r.add(v);
         }
-        r.bind(0, 1, lab(0));
-        r.bind(1, 2, lab(1));
-        r.put(2, &dat(1));
-        let _ = l.merge(&r, 200, 0);
+        r.bind(10, 11, lab(0));
+        r.bind(11, 12, lab(1));
+        r.put(12, &dat(1));
+        let _ = l.merge(&r, 200, 10);
     });
     // merge: stopped late, by the lack of a free id, after the right vertices 1, 2, 3 (ids that small
     // right graphs use below their root) were given left vertices with high ids
